@@ -292,7 +292,7 @@ def fam_crash(rnd, n, crashmax=14, double=0, fn=True, flip=False):
 def fam_api(rnd, n, races=6):
     """API histories: sequences over Submit/Start/Wait/Status/Plan on known and unknown ids,
     racing Starts, stale submissions."""
-    ops = ["start", "wait", "plan", "status", "start:unknown", "wait:unknown", "plan:unknown", "status:unknown", "submit"]
+    ops = ["start", "wait", "plan", "status", "start:unknown", "wait:unknown", "plan:unknown", "status:unknown", "submit", "statusbrk", "waitto"]
     res = []
     tiny = shape([blk([1])])
     for i in range(n):
@@ -307,6 +307,9 @@ def fam_api(rnd, n, races=6):
                     "tag": "api-race", "lat": {"b1.s1.a1": [rnd.choice([200, 2000])]}})
     res.append({"kind": "api", "shape": tiny, "mode": "free", "out": {}, "api": ["submit", "sleep:60", "start", "plan", "wait"], "maxsubmitms": 25, "tag": "api-stale"})
     res.append({"kind": "api", "shape": tiny, "mode": "free", "out": {}, "api": ["submit", "start", "wait", "start", "race3", "plan"], "tag": "api-restart"})
+    for lat in (3000, 8000):
+        res.append({"kind": "api", "shape": tiny, "mode": "free", "out": {}, "api": ["submit", "start", "waitto", "statusbrk", "waitto", "wait", "plan"], "tag": "api-abandon", "lat": {"b1.s1.a1": [lat]}})
+        res.append({"kind": "api", "shape": tiny, "mode": "free", "out": {}, "api": ["submit", "start", "statusbrk", "status", "wait"], "tag": "api-abandon", "lat": {"b1.s1.a1": [lat]}})
     res.append({"kind": "api", "shape": tiny, "mode": "free", "out": {}, "api": ["submit", "start", "wait", "start", "wait", "plan", "status", "start", "wait"], "tag": "api-restart2"})
     res.append({"kind": "api", "shape": tiny, "mode": "free", "out": {}, "api": ["submit", "sleep:60", "start", "wait", "start", "wait", "status"], "maxsubmitms": 25, "tag": "api-stale2"})
     return res
